@@ -148,6 +148,7 @@ func (e *Engine) enterLoop(f *frame, lc *loopCtx, st *State) {
 	}
 	e.havocLoopMemory(f, lc)
 	na := X.Fresh("alloc", RefSort)
+	X.FreshBase[na.ID()] = true
 	e.assume(X.Ule(f.st.Alloc, na))
 	f.st.Alloc = na
 	for phi := range entry {
